@@ -509,9 +509,14 @@ class Session:
             # marker in that text (UTF-16 columns) and include the occurrence pointed at
             ra = self.call("incr", "Probe", lambda: A.wait(ja, self.timeout))
             rb = self.call("fresh", "Probe", lambda: B.wait(jb, self.timeout))
+            # placement is judged on the reference server's answer (it was opened on the editor's text); the incremental
+            # server's answer must EQUAL it -- as a Query event, so that the specification's own rule applies to a
+            # history that contains a change without defined meaning (start after end, a line that does not exist): what
+            # the server holds then is not determined, and nothing is judged
             e["renIncr"] = rename_out_of_place(model, ra, uri, i)
             e["renFresh"] = rename_out_of_place(model, rb, uri, i)
             ev.append(e)
+            ev.append({"a": "Query", "kind": "rename", "incr": digest(answer_of(ra)), "fresh": digest(answer_of(rb))})
             if self.keep:
                 full.append({"after_event": len(ev), "kind": "prepareRename", "position": [ql, qc]})
                 full.append({"after_event": len(ev), "kind": "rename", "incr": answer_of(ra), "fresh": answer_of(rb)})
